@@ -60,6 +60,14 @@ def q_variants():
                   {"a": "read", "g": "RQ", "obj": "Q", "ctxMs": 1500, "wait": True}], [],
                  [{"a": "sendChunk", "obj": "Q", "up": "Z", "upF": "info", "upAl": 0, "seq": 2, "groups": [{"f": "id", "id": "A", "al": 0, "pts": [[202, 6]]}]},
                   {"a": "read", "g": "RQ", "obj": "Q", "ctxMs": 1500, "wait": True}, {"a": "closeDown", "g": "CQ", "obj": "Q", "ctxMs": 1500, "wait": True}])
+    # Q's close request stays unanswered while P carries traffic: P must not wait for Q's close
+    v["down-close-pending"] = (v["down"][0], v["down"][1], [{"a": "rule", "rule": {"on": "DownstreamCloseRequest", "do": "hold", "arg": 2, "nth": 1, "obj": "Q"}}],
+                               [{"a": "closeDown", "g": "CQ", "obj": "Q", "ctxMs": 4000},
+                                {"a": "release", "gate": "hold2"}, {"a": "join", "obj": "CQ"}])
+    v["up-close-pending"] = ([{"a": "openUp", "obj": "Q", "qos": "reliable", "must": True, "closeTimeoutMs": 500}], wq(101) + [{"a": "ack", "obj": "Q", "all": True}],
+                             [{"a": "rule", "rule": {"on": "UpstreamCloseRequest", "do": "hold", "arg": 3, "nth": 1, "obj": "Q"}}],
+                             [{"a": "closeUp", "g": "CQ", "obj": "Q", "ctxMs": 4000},
+                              {"a": "release", "gate": "hold3"}, {"a": "join", "obj": "CQ"}])
     v["down-resume-refused"] = (v["down"][0], v["down"][1], [{"a": "rule", "rule": {"on": "DownstreamResumeRequest", "do": "code", "arg": NG, "nth": 1, "obj": "Q"}}], [{"a": "sleep", "ms": 100}])
     return v
 
@@ -97,7 +105,7 @@ def run():
             if qname == "none":
                 continue
             for cut in (True, False):
-                if quick and not cut and qname not in ("up-unreliable", "down", "up-same-ids-acked"):
+                if quick and not cut and qname not in ("up-unreliable", "down", "up-same-ids-acked", "down-close-pending", "up-close-pending"):
                     continue
                 scs += pair(pname, p, qname, q, cut)
     trace = ctx.run_scenarios(scs, "c07", par=1 if False else 6)
